@@ -11,7 +11,7 @@ import z3
 from . import core, install, heap
 from .core import Ctx, Unmodelled, Abort, Reject, explore, set_ctx
 
-OB_RLIMIT = 40_000_000            # deterministic z3 resource limit per obligation (>= 100x the largest need seen)
+OB_RLIMIT = 15_000_000            # deterministic z3 resource limit per obligation (>= 100x the largest need seen)
 
 HARNESSES = {}
 
@@ -72,6 +72,7 @@ def num(s):
 def discharge(ob):
     s = z3.Solver()
     s.set('rlimit', OB_RLIMIT)
+    s.set('timeout', 120000)          # wall-clock safety net only; the deterministic limit is rlimit
     for p in ob.pc:
         s.add(p)
     s.add(z3.Not(ob.goal))
